@@ -541,6 +541,33 @@ def f49():
         "IPv4NetworkField with string constraints: %r" % out
 
 
+@witness("F50", ["C02", "C11"])
+def f50():
+    from cincoconfig import Schema, ListField, IntField, StringField, reset_value, validator, ValidationError
+    item = Schema()
+    item.need = IntField(required=True)
+    item.s = StringField(default="ok")
+
+    @validator(item)
+    def no_bad(cfg):
+        if cfg.s == "bad!":
+            raise ValueError("bad")
+    s = Schema()
+    s.items = ListField(item)
+    c = s()
+    c.items = [{"need": 1}, {"need": 2}]
+    reset_value(c.items[1], "need")
+    errs1 = [e.ref_path for e in c.validate(collect_errors=True)]
+    c.items[1].need = 2
+    c.items[0].s = "bad!"
+    try:
+        c.validate()
+        raised = None
+    except ValidationError as e:
+        raised = e.ref_path
+    return errs1 == ["items[1].need"] and raised == "items[0]", "validate() reaches configurations held in lists: %r %r" % (errs1, raised)
+
+
 # ---------------------------------------------------------------------------------------------
 # probes of OPEN findings that no correspondence stream reaches (operations outside the model's
 # alphabet).  A probe returns (still_reproduces, detail); it never raises an alarm by itself.
@@ -584,6 +611,21 @@ def p42():
     except ValueError:
         return False, "required IncludeField without a value is rejected"
     return errs == [] and c.inc is None, "IncludeField(required=True) never given a value passes load_tree and validate()"
+
+
+@finding("F37", ["C15"])
+def p37():
+    from cincoconfig import Schema, ListField, DictField, StringField, IntField, ValidationError
+    s = Schema()
+    s.sub.l = ListField(DictField(StringField(), IntField()))
+    c = s()
+    try:
+        c.sub.l = [{"a": 1}, {"k": "bad"}]
+    except ValidationError as e:
+        return e.ref_path in ("[k]", "sub.[k]"), "typed dict as list item: rejected entry reports %r (the list field sub.l is not named)" % e.ref_path
+    except Exception as e:  # noqa
+        return False, "raised %s" % type(e).__name__
+    return False, "accepted"
 
 
 def main(argv):
